@@ -381,6 +381,73 @@ func runC15(c *fw.Ctx, cs fw.Case) {
 			}
 			checkStream(c, rc, h, pvs, false, what)
 		}
+	case "longrun":
+		// "otherwise runs until halted": an unlimited analysis of a position where every iteration is trivial (no
+		// legal move and not in check, or the hundredth ply falling on every reply) runs through iteration
+		// counts beyond 8 and 16 bits within a second; it must still be running then
+		for i := 0; i < cs.N; i++ {
+			rc := &recipes[[]int{0, 0, 3}[r.Intn(3)]]
+			var h gen.Hist
+			tag := ""
+			if t, ok := terminalRoot(r, false); ok && r.Intn(2) == 0 {
+				h, tag = t, "stalemate root"
+			} else {
+				p := smallMaterial(r)
+				p.Half = 99
+				h, tag = gen.Hist{Start: p}, "clock 99"
+				quiet := len(p.LegalMoves()) > 0
+				for _, m := range p.LegalMoves() {
+					if m.Capture != 0 || m.Piece == ref.Pawn {
+						quiet = false
+					}
+				}
+				if !quiet {
+					continue
+				}
+			}
+			b, ok := boardOf(h)
+			if !ok {
+				continue
+			}
+			target := []int{300, 70000}[i%2]
+			what := fmt.Sprintf("recipe %s unlimited analysis of %s (%s), watched up to iteration %d", rc.name, histDesc(h), tag, target)
+			handle, out := (&searchctl.Iterative{Root: rc.build(idWrap)}).Launch(ctx, b, search.NoTranspositionTable{}, eval.Random{}, searchctl.Options{})
+			deepest, ended, mated := 0, false, false
+			watchdog := time.After(60 * time.Second)
+		watch:
+			for deepest < target {
+				select {
+				case pv, ok := <-out:
+					if !ok {
+						ended = true
+						break watch
+					}
+					if pv.Depth > deepest {
+						deepest = pv.Depth
+					}
+					if mateWithin(pv) {
+						mated = true
+					}
+				case <-watchdog:
+					break watch
+				}
+			}
+			final := handle.Halt()
+			c.Eval(1)
+			c.Count("long_runs", 1)
+			c.Distinct(what)
+			switch {
+			case ended && !mated:
+				c.Violate("iter:ended-by-itself", "the analysis ended by itself after iteration %d (no depth limit, no mate): %s", deepest, what)
+			case !ended && deepest < target:
+				c.Inconclusive("iteration %d not reached within the watchdog: %s", target, what)
+			default:
+				c.Count("long_runs_beyond_"+fmt.Sprint(target), 1)
+				if final.Depth < deepest {
+					c.Violate("iter:halt-regressed", "Halt returned iteration %d after iteration %d had been reported: %s", final.Depth, deepest, what)
+				}
+			}
+		}
 	case "uciclock":
 		// the limits a 'go' with clocks is granted, observed where the search arms its timer (hook timectrl.*):
 		// whatever the driver makes of the parameters, the hard limit must not exceed the mover's clock as sent
@@ -554,7 +621,7 @@ func init() {
 		Level:       "exploration",
 		Race:        true,
 		Technique:   "runtime trace checking of the PV stream against direct fixed-depth searches; gate evaluator that parks the search goroutine inside depth 1 while Halt is called; hook-point delays between store/publish of an iteration; enumerated time-control parameters; all under the race detector",
-		Rule:        "streams: four engine recipes x generated roots x depth limits (with and without a shared table): depths strictly increasing, each reported iteration equals a direct search (score; PV and nodes without table), end exactly at the limit or at the first forced mate within depth, Halt after the end returns the last iteration; halts: unlimited analysis halted after k reported iterations with random delays injected at iter.done/iter.stored/iter.sent/iter.halt.*: Halt returns a completed iteration >= every one reported before, never ended by itself; gate: search parked inside the j-th evaluation of depth 1 while Halt is called (in half of the runs by two overlapping callers): Halt must not return before the gate opens (30 ms grace; correct code cannot return, so no false alarm) and then returns completed depth >= 1; limits: all combinations of 13 clock values x 21 moves-to-go values x 2 colours plus random ones: 0 <= soft <= hard <= remaining, no panic; clock: 0-2 ms clocks still complete depth 1; uciclock: UCI go lines with clocks (exact zeros, either order, movestogo, increments) on all four engines: the hard limit the search arms (observed at hook timectrl.hard) is within [0, mover's clock as sent]; engine default depth; distinct = distinct (recipe, history, parameters)",
+		Rule:        "streams: four engine recipes x generated roots x depth limits (with and without a shared table): depths strictly increasing, each reported iteration equals a direct search (score; PV and nodes without table), end exactly at the limit or at the first forced mate within depth, Halt after the end returns the last iteration; halts: unlimited analysis halted after k reported iterations with random delays injected at iter.done/iter.stored/iter.sent/iter.halt.*: Halt returns a completed iteration >= every one reported before, never ended by itself; gate: search parked inside the j-th evaluation of depth 1 while Halt is called (in half of the runs by two overlapping callers): Halt must not return before the gate opens (30 ms grace; correct code cannot return, so no false alarm) and then returns completed depth >= 1; limits: all combinations of 13 clock values x 21 moves-to-go values x 2 colours plus random ones: 0 <= soft <= hard <= remaining, no panic; clock: 0-2 ms clocks still complete depth 1; longrun: unlimited analyses of trivial roots (stalemate, clock 99 with quiet moves only) watched beyond iteration 300 and 70000: still running, Halt returns the latest; uciclock: UCI go lines with clocks (exact zeros, either order, movestogo, increments) on all four engines: the hard limit the search arms (observed at hook timectrl.hard) is within [0, mover's clock as sent]; engine default depth; distinct = distinct (recipe, history, parameters)",
 		Assumptions: []string{"gaps in the PV stream are legal: the one-slot channel deliberately drops an unread iteration", "clocks are non-negative (the quantifier of the property)"},
 		Timeout:     minutes(15, 120),
 		Cases: func(tier string, seed int64) []fw.Case {
@@ -565,10 +632,11 @@ func init() {
 			l = mkCases(l, "clock", 6, seed, pick(tier, 8, 300))
 			l = mkCases(l, "engine-default", 6, seed, pick(tier, 6, 200))
 			l = mkCases(l, "uciclock", 6, seed, pick(tier, 8, 200))
+			l = mkCases(l, "longrun", 4, seed, pick(tier, 4, 40))
 			return l
 		},
 		Floors: func(string) map[string]int64 {
-			return map[string]int64{"limit_checks": 10000, "streams": 100, "iterations_compared": 500, "ended_by_mate": 3, "halts_after_k": 60, "gated_halts": 50, "clock_runs": 30, "engine_default_runs": 20, "explicit_no_limit_runs": 10, "uci_clock_gos": 100, "uci_clock_zero": 20, "gated_overlapping_halts": 20}
+			return map[string]int64{"limit_checks": 10000, "streams": 100, "iterations_compared": 500, "ended_by_mate": 3, "halts_after_k": 60, "gated_halts": 50, "clock_runs": 30, "engine_default_runs": 20, "explicit_no_limit_runs": 10, "uci_clock_gos": 100, "uci_clock_zero": 20, "gated_overlapping_halts": 20, "long_runs_beyond_70000": 3, "long_runs_beyond_300": 3}
 		},
 		Run: runC15,
 	})
